@@ -510,6 +510,81 @@ func c07Collect(c *Ctx, p *Prog, m *Model) {
 				}
 			}
 		}
+		// nothing but the key's own kind and the presence of its value decides whether it is appended: every branch edge
+		// that dominates an append in the lookup loop is a type test of the key, a nil test of the value looked up, or
+		// the loop's own bound
+		for _, b := range fc.Blocks {
+			isAppendSite := false
+			for _, in := range b.Instrs {
+				if call, ok := in.(*ssa.Call); ok && isBuiltinCall(call, "append") && isAttrsT(call.Type()) {
+					isAppendSite = true
+				}
+			}
+			if !isAppendSite || !inLoop(b) {
+				continue
+			}
+			for _, g := range guardsOf(b) {
+				cond, _ := normCond(g.If.Cond)
+				okGuard := false
+				switch x := cond.(type) {
+				case *ssa.Extract:
+					if _, isTA := x.Tuple.(*ssa.TypeAssert); isTA && x.Index == 1 {
+						okGuard = true
+					}
+					if _, isNext := x.Tuple.(*ssa.Next); isNext {
+						okGuard = true
+					}
+					// "can this key be named": the ok of a private helper that looks at nothing but the key handed to it
+					// (its only conditions are type tests of its parameter)
+					if call, isCall := x.Tuple.(*ssa.Call); isCall {
+						if cal := calleeOf(call); cal != nil && privateHelper(p)(cal) && len(cal.Params) == 1 {
+							pure := true
+							for _, hb := range cal.Blocks {
+								if iff := ifOf(hb); iff != nil {
+									hc, _ := normCond(iff.Cond)
+									ex2, isEx := hc.(*ssa.Extract)
+									if !isEx {
+										pure = false
+										continue
+									}
+									if ta, isTA := ex2.Tuple.(*ssa.TypeAssert); !isTA || strip(ta.X) != ssa.Value(cal.Params[0]) {
+										pure = false
+									}
+								}
+							}
+							if pure {
+								okGuard = true
+							}
+						}
+					}
+				case *ssa.BinOp:
+					if isNilConst(x.Y) || isNilConst(x.X) {
+						v := x.X
+						if isNilConst(x.X) {
+							v = x.Y
+						}
+						if call, isCall := strip(v).(*ssa.Call); isCall && invokeName(call) == "Value" {
+							okGuard = true
+						}
+						if _, isPrm := strip(v).(*ssa.Parameter); isPrm {
+							okGuard = true // the context / the list itself
+						}
+					}
+					for _, side := range []ssa.Value{x.X, x.Y} {
+						if call, isCall := strip(side).(*ssa.Call); isCall && isBuiltinCall(call, "len") {
+							okGuard = true // loop bound / "any keys registered"
+						}
+					}
+				case *ssa.Call:
+					if n := calleeOf(x); n != nil && nm(n) == "ctxKeysWanted" {
+						okGuard = true
+					}
+				}
+				if !okGuard {
+					probs = append(probs, fmt.Sprintf("whether a context value is appended also depends on %s (%s): a registered key present in the context can be skipped", m.guardDesc(g), p.Pos(instrPos(g.If))))
+				}
+			}
+		}
 		// both key kinds are recognised (in fromCtx or a private helper of it)
 		hasStr, hasStringer := false, false
 		_, region := newTermEval(p).callsOf(fc, privateHelper(p))
@@ -698,6 +773,7 @@ func c07Sort(c *Ctx, p *Prog, m *Model) {
 		}
 	}
 	printedKeyIsOwnKey(c, p, sa)
+	attrsIdentity(c, p, "R07.4")
 	if sortCall == nil {
 		r.Bad("R07.3", "sort:stability", p.FuncPos(sa), "serializeAttrs does not sort its members with a recognised sort function: ascending key order is not established")
 	}
